@@ -22,7 +22,7 @@ struct LqRun {
             auto push8 = [&](const Bn& v) { std::vector<uint8_t> b(8); v.to_le(b.data(), 8); env.stream.push(8, b); };
             auto tuple = [&](const Bn& y) { Bn q, rem, cur = y; for (int i = 0; i < 4; i++) { Bn::divmod(cur, K().absx, q, rem); push8(rem); cur = q; } };
             if (f == "storm8") for (int i = 0; i < 5; i++) push8(i % 2 ? K().absx : Bn::sub(Bn(1).shl(64), Bn(1)));
-            else if (f == "tupler") tuple(K().r); else if (f == "tuplerm1") tuple(Bn::sub(K().r, Bn(1))); else if (f == "tuple1") tuple(Bn(1)); else if (f == "digitxm1") push8(Bn::sub(K().absx, Bn(1)));
+            else if (f == "tupler") tuple(K().r); else if (f == "tuplerm1") tuple(Bn::sub(K().r, Bn(1))); else if (f == "tuple1") tuple(Bn(1)); else if (f == "tuple0") tuple(Bn(0)); else if (f == "digitxm1") push8(Bn::sub(K().absx, Bn(1)));
             env.count("fault:stream_" + f);
         }
         env.stream.begin_call(); env.lib_calls++;
@@ -142,7 +142,8 @@ struct LqRun {
         if (expect_same) {
             env.check(same, "C16", "decrypt:same-hashed-bytes", std::string("decryption fed the hash function different bytes than encryption did ") + what);
             env.check(std::vector<uint8_t>(sym.p, sym.p + c.symlen) == c.sym, "C16", "decrypt:same-symmetric-key", "decryption produced a different symmetric key");
-        } else env.check(!same, "C16", "decrypt:bound-to-identity-master-ciphertext", std::string("hashed bytes are unchanged although decryption used: ") + what);
+        } else if (Bn::mod(c.r, K().r).is_zero() && (variant == 1 || variant == 2)) env.count("probe:encryption_randomness_zero");   // scripted r = 0: the ciphertext is the identity and every key pairs to 1 with it - legal output of a random source, excluded by the scheme's argument; exempt from the "other key" negative cases
+        else env.check(!same, "C16", "decrypt:bound-to-identity-master-ciphertext", std::string("hashed bytes are unchanged although decryption used: ") + what);
         env.add_case(strf("lqdec v%d len%zu", variant, c.symlen), !expect_same);
     }
     // marshalling of LQ-IBE objects (C15): layout, lengths, round trip, element validation
@@ -209,13 +210,13 @@ struct LqScenario : Scenario {
             return p;
         }
         int n = r.range(3, 20);
-        static const char* sf[] = {"storm8", "tupler", "tuplerm1", "tuple1", "digitxm1"};
+        static const char* sf[] = {"storm8", "tupler", "tuplerm1", "tuple1", "digitxm1", "tuple0"};
         for (int i = 0; i < n; i++) {
             int k = r.range(0, 11); int64_t ss = (int64_t) (r.next() >> 1);
             if (k == 0) p.ops.push_back({"ID", {}, {rhex(r, 48)}});
             else if (k == 1) { Op o{"MSKHOP", {r.chance(1, 2), r.chance(1, 2)}, {}}; int m = r.range(0, 4); if (m == 1) o.s.push_back(strf("flip:%d:%d", r.range(28, 31), r.range(4, 7))); else if (m == 2) o.s.push_back("ge_r"); else if (m == 3) o.s.push_back("max"); else if (m == 4) o.s.push_back(strf("set:31:%d", r.range(0x74, 0xFF))); p.ops.push_back(o); }
             else if (k <= 3) p.ops.push_back({"KEYGEN", {(int64_t) r.below(8)}, {}});
-            else if (k <= 6) { Op o{"ENC", {ss, (int64_t) r.below(8), (int64_t) r.below(6)}, {}}; if (r.chance(1, 3)) o.s.push_back(sf[r.below(5)]); p.ops.push_back(o); }
+            else if (k <= 6) { Op o{"ENC", {ss, (int64_t) r.below(8), (int64_t) r.below(6)}, {}}; if (r.chance(1, 3)) o.s.push_back(sf[r.below(6)]); p.ops.push_back(o); }
             else if (k <= 9) p.ops.push_back({"DEC", {(int64_t) r.below(8), (int64_t) r.below(6), r.chance(1, 2), (int64_t) r.below(512)}, {}});
             else { Op o{"HOP", {(int64_t) r.below(4), (int64_t) r.below(8), r.chance(1, 2), r.chance(2, 3)}, {}}; int m = r.range(0, 3); if (m == 1) o.s.push_back(strf("elem:%d:%s:%llu", (int) r.below(2), invalid_kinds()[r.below(invalid_kinds().size())].c_str(), (unsigned long long) (r.next() >> 8))); else if (m == 2) o.s.push_back(strf("flip:%d:%d", (int) r.below(192), r.range(0, 7))); p.ops.push_back(o); }
         }
